@@ -12,6 +12,7 @@ noncomputable def realArith : Arith ℝ where
   one := 1
   zero := 0
   add := (· + ·)
+  sub := (· - ·)
   mul := (· * ·)
   div := (· / ·)
   neg := fun x => -x
@@ -20,6 +21,7 @@ noncomputable def realArith : Arith ℝ where
   max := max
   gt := fun a b => decide (a > b)
   ofNat := fun n => (n : ℝ)
+  ofRat := fun q => (q : ℝ)
   trunc := fun x => ⌊x⌋₊
 
 theorem foldl_mul_eq_prod (l : List ℝ) (a : ℝ) : l.foldl (· * ·) a = a * l.prod := by
